@@ -51,6 +51,13 @@ def inputs(tier):
     for ci in cfg_inputs:
         for name in sorted(CFG_EDITS):
             out.append(dict(ci, cfg=name))
+    # covalently penalised groups whose rows are printed (remove_penalised_group 0): starred only if non-covalently coupled
+    for tb in ([['B', 25]], [['A', 25], ['B', 25]]):
+        d = corpus.cutout_desc('1HPX', 'A', 24, 12.0)
+        d['ter_before'] = tb
+        out.append(dict(src='corpus', d=d, cfg='keep-penalised'))
+    out.append(dict(src='corpus', d=corpus.window_desc('3SGB', 'I', 0, 10), cfg='keep-penalised'))
+    out.append(dict(src='corpus', d=corpus.cutout_desc('4DFR', 'A', 26, 10.0), cfg='keep-penalised'))
     # the request for alternative states in an earlier calculation of the same process must not carry over
     for ci in coupled_inputs:
         for pj in (0, 2):
@@ -65,7 +72,9 @@ CFG_EDITS = {'min_pka=4': {'min_pka': '4.0'}, 'min_pka=8': {'min_pka': '8.0'}, '
              'max_free_energy_diff=0.1': {'max_free_energy_diff': '0.1'}, 'max_free_energy_diff=9': {'max_free_energy_diff': '9.0'},
              'min_swap_pka_shift=0': {'min_swap_pka_shift': '0.0'}, 'min_swap_pka_shift=4': {'min_swap_pka_shift': '4.0'},
              'max_intrinsic_pka_diff=0.3': {'max_intrinsic_pka_diff': '0.3'}, 'max_intrinsic_pka_diff=9': {'max_intrinsic_pka_diff': '9.0'},
-             'reference=low-pH': {'reference': 'low-pH'},
+             'reference=low-pH': {'reference': 'low-pH'}, 'keep-penalised': {'remove_penalised_group': '0'},
+             'exclude=ASP': {'+exclude_sidechain_interactions': ['ASP']}, 'exclude=GLU+HIS': {'+exclude_sidechain_interactions': ['GLU', 'HIS']},
+             'exclude=TYR+LYS+ARG+CYS': {'+exclude_sidechain_interactions': ['TYR', 'LYS', 'ARG', 'CYS']},
              'all-open': {'min_pka': '-20.0', 'max_pka': '30.0', 'min_interaction_energy': '0.0', 'max_free_energy_diff': '99.0',
                           'min_swap_pka_shift': '0.0', 'max_intrinsic_pka_diff': '99.0'}}
 
@@ -81,7 +90,7 @@ def cfg_opts(case):
         return ()
     import os
     from . import c02
-    path = os.path.abspath('c15_%s.cfg' % name.replace('=', '_'))
+    path = os.path.abspath('c15_%s.cfg' % name.replace('=', '_').replace('+', '_'))
     if not os.path.exists(path):
         lines = []
         for ln in c02.cfg_variants()[(1, 0, 0)].splitlines(True):
@@ -89,6 +98,9 @@ def cfg_opts(case):
             if w and w[0] in CFG_EDITS[name]:
                 ln = '%s %s\n' % (w[0], CFG_EDITS[name][w[0]])
             lines.append(ln)
+        for key, vals in CFG_EDITS[name].items():
+            if key.startswith('+'):
+                lines += ['%s %s\n' % (key[1:], x) for x in vals]
         with open(path, 'w') as fh:
             fh.write(''.join(lines))
     return ('-p', path)
